@@ -29,6 +29,8 @@ func Main() {
 	r := core.Start("C17", "exploration")
 	processSetup()
 	r.SetRule("sequential history = 50..400 operations (AddLocal(s)/AddRemotes/AddRemotesSync/AddRemote of valid, replacing, duplicate, underpriced, gapped, oversized, unaffordable, wrong-chain, negative, blacklisted transactions; ChainHeadEvents and silent head changes with mined blocks, forks, nonce/balance/gas-limit moves; SetGasPrice; journal reload; lifetime expiry) over 4 senders with limits 2/6/3/6, judged after every operation; non-trivial = at least one ChainHeadEvent was processed and at least 10 distinct transactions were accepted; concurrent history = 8 submitters + head producer + price changer, non-trivial = at least 20 accepted transactions and one processed head event; distinct by case index")
+	r.Extra("race_keys_excluded_by_rule", map[string]string{
+		"mainchain/tx_pool.(*txPricedList).Reheap|mainchain/tx_pool.NewTxPool.gowrap2": "plain store of priced.stales under the pool lock vs atomic load in the loop's stats report; the value only feeds a debug log line"})
 	r.Assume("limit invariants are evaluated at the reorg fixpoint (two idle reorg runs), structural invariants after every call; local = member of pool.Locals()")
 	// development aid only: C17_GROUPS=corpus,history restricts the groups that run
 	// (floors of skipped groups then make the run inconclusive, as they should)
@@ -81,6 +83,24 @@ func Main() {
 	if scratch != "" {
 		os.RemoveAll(scratch) // Finish exits the process: no defer
 	}
+	// floors: low enough to hold at every seed, high enough to trip when a mechanism is no longer reached
+	r.Floor("corpus_scenarios", int64(len(scenarios())))
+	r.Floor("histories", 250)
+	r.Floor("op:head:event", 1000)
+	r.Floor("op:head:event:reorg", 200)
+	r.Floor("reinjected_txs", 50)
+	r.Floor("blocks_with_mined_txs", 300)
+	r.Floor("replacements_accepted", 500)
+	r.Floor("replacements_refused", 500)
+	r.Floor("gone:capacity", 500)
+	r.Floor("gone:unpayable", 500)
+	r.Floor("gone_local:unpayable", 100)
+	r.Floor("capacity_dependent_submissions", 500)
+	r.Floor("reload_restored_txs", 500)
+	r.Floor("expired_txs", 15)
+	r.Floor("rejected:known", 50)
+	r.Floor("rejected:invalid-sender", 100)
+	r.Floor("rejected:oversized", 50)
 	r.Floor("conc_accepted_txs", 100)
 	r.Floor("conc_head_events", 20)
 	r.Floor("blacklist_refreshes_ok", 1)
